@@ -313,7 +313,8 @@ _upd('C05', None,
      'slash_classes_exclusive / slash_reading_is_dictated (kernel decision over the regenerated tables): no parser state accepts both '
      'a division token and a regular-expression literal except the two states after the `}` of a named function (finding KF-03a), so '
      'wherever the parser acts on the `/` token the lexer delivered, the other lexical class would have been a syntax error there; '
-     'simple_tokens_never_regex, punctuators_never_div, rparen_states_exclusive; lexer side div_allowed_iff, div_decision. Not proved: '
+     'simple_tokens_never_regex, punctuators_never_div, rparen_states_exclusive; header_keywords_are_grammar_headers (the lexer\'s header-keyword '
+     'table = the terminals k with a production k ( ... ) statement in the regenerated grammar; the pre-4c0dced table is refuted); lexer side div_allowed_iff, div_decision. Not proved: '
      'that the lexer\'s parenthesis stack and the LR stack agree on which `)` closes a statement header - judged by the class of every '
      '`/` by source offset against the reference parser in preceding-construct x following-text x layout contexts, also nested inside '
      'open parentheses and after property names spelled like reserved words.',
